@@ -34,7 +34,7 @@ class Prop(BaseProp):
     budget = {"quick": 420, "thorough": 27000}
     must_see = ["N>=5", "repeated_train", "empty_train_in_list", "permutation_checked", "matrix_checked",
                 "tail:op1_tail_longer", "tail:op2_tail_longer", "tail:end_together", "sync_profile_checked",
-                "RI_true", "max_tau_positive", "mrts_positive", "indices_selection", "indices_non_prefix", "interval_given"]
+                "RI_true", "max_tau_positive", "mrts_positive", "indices_selection", "indices_non_prefix", "interval_given", "interval_list_given", "interval_with_a_silent_pair_among_active_ones"]
     arm_files = [("pyspike/generic.py", None),
                  ("pyspike/cython/python_backend.py", ["add_piece_wise_const_python", "add_piece_wise_lin_python",
                                                        "add_discrete_function_python"])]
@@ -55,6 +55,8 @@ class Prop(BaseProp):
                 bps = sorted({t for s in case["trains"] for t in s})
                 a, b, kd = gen.pick_interval(rng, case["ts"], case["te"], bps, kind=rng.choice([None, None, "full"]))
                 case["interval"] = [a, b]
+                if rng.random() < 0.3:
+                    case["interval"] = gen.pick_interval_list(rng, case["ts"], case["te"], bps)
             else:
                 case["interval"] = None
             yield case
@@ -150,6 +152,13 @@ class Prop(BaseProp):
         if iv is not None:
             ctx.count("interval_given")
             ivt = (iv[0], iv[1])
+            wins = [ivt]
+            if isinstance(iv[0], (list, tuple)):
+                ivt = [tuple(w) for w in iv]
+                wins = ivt
+                ctx.count("interval_list_given")
+                if len(iv) >= 3:
+                    ctx.count("interval_list_3+")
             for name, fnm, fns, kw, diag, pooled in (("isi", ps.isi_distance_matrix, ps.isi_distance, kw_isi, 0.0, False),
                                                      ("spike", ps.spike_distance_matrix, ps.spike_distance, kw_spk, 0.0, False),
                                                      ("sync", ps.spike_sync_matrix, ps.spike_sync, kw_syn, 1.0, True)):
@@ -164,6 +173,26 @@ class Prop(BaseProp):
                 if not pooled:
                     dm = ctx.call(fns, full, interval=ivt, **sel, **kw)
                     ctx.close(dm, sum(vals.values()) / M, name + "-multi-distance:interval", "%s distance(list, interval=%r) vs mean of pair distances" % (name, iv), rel=1e-12)
+                else:
+                    # SPIKE-Sync of the list over the window(s) = coincidences of all pairs inside / multiplicities of all
+                    # pairs inside (pairs that are silent inside contribute nothing); 1 if nothing is inside at all
+                    sy = sm = 0
+                    silent_pair = False
+                    for (i, j) in pairs:
+                        pp = ctx.call(ps.spike_sync_profile, sts[i], sts[j], **kw)
+                        py_, pm_ = 0, 0
+                        for (u, v) in wins:
+                            a_, b_ = ref.discrete_sums(pp.x, pp.y, pp.mp, u, v)
+                            py_ += a_
+                            pm_ += b_
+                        silent_pair = silent_pair or pm_ == 0
+                        sy += py_
+                        sm += pm_
+                    if silent_pair and sm > 0:
+                        ctx.count("interval_with_a_silent_pair_among_active_ones")
+                    dm = ctx.call(fns, full, interval=ivt, **sel, **kw)
+                    ctx.close(dm, float(sy / sm) if sm else 1.0, "sync-multi-value:interval",
+                              "spike_sync(list, interval=%r) vs pooled coincidences / multiplicities of all pairs inside" % (iv,), rel=1e-12)
 
         # ---------------- permutations
         if N >= 3:
